@@ -212,6 +212,28 @@ func (n *Node) StoreBlock(b *chaingen.Block) error {
 	return n.BC.Store(blk, comm, su, cls)
 }
 
+// StoreBlockResupplying is StoreBlock with the definition of an ALREADY STORED class handed over once
+// more next to the block's new classes - what the pipelined sync does when it fetched the block while
+// the class was still unknown (a block several heights ahead of the head): the class must stay as it
+// was declared.
+func (n *Node) StoreBlockResupplying(b *chaingen.Block, known map[felt.Felt]core.ClassDefinition) error {
+	blk, su := CloneBlock(b.B), CloneStateUpdate(b.SU)
+	cls := map[felt.Felt]core.ClassDefinition{}
+	for h, d := range b.Classes {
+		cls[h] = d
+	}
+	for h, d := range known {
+		if _, dup := cls[h]; !dup {
+			cls[h] = d
+		}
+	}
+	comm, err := n.BC.SanityCheckNewHeight(blk, su, cls)
+	if err != nil {
+		return fmt.Errorf("sanity check: %w", err)
+	}
+	return n.BC.Store(blk, comm, su, cls)
+}
+
 // TestSigner is the deterministic block signer of the sequencer path.
 func TestSigner(blockHash, stateDiffCommitment *felt.Felt) ([]*felt.Felt, error) {
 	var r, s felt.Felt
